@@ -170,6 +170,18 @@ pub fn run(cli: Cli) -> ! {
             specs.push(Spec { proxy, limiter: true, stall: "connected-silent".into(), hostile: 1, login: true });
         }
     }
+    // a crowd: hundreds (thorough: thousands) of connections held open at a cheap stall point
+    for proxy in [false, true] {
+        let mut crowd_stalls = vec!["connected-silent", "after-handshake", "mid-handshake-frame"];
+        if proxy {
+            crowd_stalls.push("inside-proxy-header-half");
+        }
+        for stall in crowd_stalls {
+            for hostile in if thorough { vec![300usize, 1100, 3000] } else { vec![600usize] } {
+                specs.push(Spec { proxy, limiter: false, stall: stall.into(), hostile, login: false });
+            }
+        }
+    }
     let max_ms = AtomicU64::new(0);
     let served_n = AtomicU64::new(0);
     par_for(specs.len(), |i| {
@@ -200,7 +212,7 @@ pub fn run(cli: Cli) -> ! {
     rep.set("slowest_served_ms", json!(max_ms.load(Ordering::Relaxed)));
     rep.set("bound_ms", json!(BOUND.as_millis() as u64));
     rep.set("exhaustive", json!(true));
-    rep.set("rule", json!("every stall point (silent after connect, 1 byte / half of the PROXY header, fewer bytes than any header, header complete, mid-frame, after handshake, after login start, after the encryption request, in configuration never echoing, slow garbage) x PROXY protocol on/off x limiter on/off x 1, 2, 9 (thorough: 40) hostile clients; the well-behaved client has another effective address; each schedule is distinct"));
+    rep.set("rule", json!("every stall point (silent after connect, 1 byte / half of the PROXY header, fewer bytes than any header, header complete, mid-frame, after handshake, after login start, after the encryption request, in configuration never echoing, slow garbage) x PROXY protocol on/off x limiter on/off x 1, 2, 9 (thorough: 40) hostile clients; crowds of 600 (thorough: 300, 1100, 3000) connections held open at four cheap stall points; the well-behaved client has another effective address; each schedule is distinct"));
     rep.sample(json!({"spec": specs[0]}));
     rep.sample(json!({"spec": specs[specs.len() - 1]}));
     rep.assume("real time on loopback: 'never' is a 2 s deadline where the correct behaviour takes a few milliseconds; OS scheduling of the sockets is not controlled");
